@@ -292,7 +292,7 @@ fn err_class(e: &str) -> String {
 }
 
 /// Run program `p` on thread `th` (compile + run, the whole thing on the calling OS thread).
-fn run_prog(th: &Thread, idx: usize, p: &Prog, chans: &[Chan], spin_limit: u64) -> String {
+fn run_prog(th: &Thread, idx: usize, p: &Prog, chans: &[Chan], prod_done: &[AtomicBool], spin_limit: u64) -> String {
     let name = format!("prog{}", idx);
     let text = prog_text(p);
     match &p.role {
@@ -326,6 +326,8 @@ fn run_prog(th: &Thread, idx: usize, p: &Prog, chans: &[Chan], spin_limit: u64) 
                     let mut acc = 0i64;
                     let mut spins = 0u64;
                     while got < *k {
+                        // a producer that failed never sends the rest: do not spin for ever
+                        let producer_was_done = prod_done[*c].load(Ordering::SeqCst);
                         match f.call(chans[*c].1.clone()) {
                             Ok(IO::Value(v)) if v >= 0 => {
                                 got += 1;
@@ -333,7 +335,7 @@ fn run_prog(th: &Thread, idx: usize, p: &Prog, chans: &[Chan], spin_limit: u64) 
                             }
                             Ok(IO::Value(_)) => {
                                 spins += 1;
-                                if spins > spin_limit {
+                                if producer_was_done || spins > spin_limit {
                                     return "err:consumer_starved".into();
                                 }
                                 std::thread::yield_now();
@@ -363,6 +365,7 @@ fn child_par(case: &ParCase) -> Value {
             Ok(x) => x,
             Err(e) => return json!({"setup_error": e}),
         };
+        let solo_done: Vec<AtomicBool> = (0..case.nchan).map(|_| AtomicBool::new(false)).collect();
         let mut order: Vec<usize> = (0..n).collect();
         order.sort_by_key(|i| match case.progs[*i].role {
             Role::Prod(..) => 0,
@@ -371,7 +374,10 @@ fn child_par(case: &ParCase) -> Value {
         });
         for i in order {
             let th = vm.new_thread().unwrap();
-            solo[i] = run_prog(&th, i, &case.progs[i], &chans, 1000);
+            solo[i] = run_prog(&th, i, &case.progs[i], &chans, &solo_done, 1000);
+            if let Role::Prod(c, _) = case.progs[i].role {
+                solo_done[c].store(true, Ordering::SeqCst);
+            }
         }
         solo_counts = take_counts(k);
     }
@@ -381,6 +387,7 @@ fn child_par(case: &ParCase) -> Value {
         Err(e) => return json!({"setup_error": e}),
     };
     let chans = Arc::new(chans);
+    let prod_done: Arc<Vec<AtomicBool>> = Arc::new((0..case.nchan).map(|_| AtomicBool::new(false)).collect());
     let barrier = Arc::new(Barrier::new(n + 1 + case.collector as usize));
     let done = Arc::new(AtomicBool::new(false));
     let mut handles = vec![];
@@ -388,7 +395,7 @@ fn child_par(case: &ParCase) -> Value {
         let p = case.progs[i].clone();
         let pre = if case.spawn_inside { None } else { Some(vm.new_thread().unwrap()) };
         let root = vm.clone();
-        let (barrier, chans) = (barrier.clone(), chans.clone());
+        let (barrier, chans, prod_done) = (barrier.clone(), chans.clone(), prod_done.clone());
         handles.push(std::thread::spawn(move || {
             barrier.wait();
             if p.delay_us == 1 {
@@ -400,14 +407,23 @@ fn child_par(case: &ParCase) -> Value {
                 Some(t) => t,
                 None => match root.new_thread() {
                     Ok(t) => t,
-                    Err(e) => return err_class(&format!("new_thread {}", e)),
+                    Err(e) => {
+                        if let Role::Prod(c, _) = p.role {
+                            prod_done[c].store(true, Ordering::SeqCst);
+                        }
+                        return err_class(&format!("new_thread {}", e));
+                    }
                 },
             };
             drop(root);
-            match gv::catch(|| run_prog(&th, i, &p, &chans, 50_000_000)) {
+            let r = match gv::catch(|| run_prog(&th, i, &p, &chans, &prod_done, 50_000_000)) {
                 Ok(r) => r,
                 Err(msg) => format!("panic:{}:{}", PANIC_AT.with(|p| p.borrow().clone()), sanitize(&msg, 40)),
+            };
+            if let Role::Prod(c, _) = p.role {
+                prod_done[c].store(true, Ordering::SeqCst);
             }
+            r
         }));
     }
     let coll = if case.collector {
@@ -456,6 +472,8 @@ fn child_locks(v: &Value) -> Value {
     gv::quiet_panics();
     let nth = v["nthreads"].as_u64().unwrap() as usize;
     let iters = v["iters"].as_u64().unwrap();
+    // a scenario that does not deadlock must end well before the watchdog even on a loaded machine
+    let cap = Duration::from_millis(v["cap_ms"].as_u64().unwrap_or(3000));
     let root = gv::vm::new_vm();
     root.get_database_mut().set_implicit_prelude(false);
     let mut ths = vec![root.clone()];
@@ -463,16 +481,12 @@ fn child_locks(v: &Value) -> Value {
         ths.push(root.new_thread().unwrap());
     }
     let ops = v["ops"].as_array().unwrap().clone();
-    let barrier = Arc::new(Barrier::new(ops.len()));
-    let others = Arc::new(AtomicU64::new(
-        ops.iter().filter(|o| o[0].as_str() != Some("collect")).count() as u64,
-    ));
-    let mut hs = vec![];
+    // (one repetition of the operation, minimum repetitions, maximum repetitions)
+    let mut steps: Vec<(Box<dyn FnMut() + Send>, u64, u64)> = vec![];
     for (j, op) in ops.iter().enumerate() {
         let kind = op[0].as_str().unwrap().to_string();
         let a = op[1].as_u64().unwrap() as usize;
         let b = op.get(2).and_then(|x| x.as_u64()).unwrap_or(0) as usize;
-        let barrier = barrier.clone();
         match kind.as_str() {
             "reroot" => {
                 let (val, _) = ths[b]
@@ -483,27 +497,17 @@ fn child_locks(v: &Value) -> Value {
                     .unwrap();
                 let val: RootedValue<RootedThread> = val.into_inner();
                 let d = ths[a].clone();
-                let others = others.clone();
-                hs.push(std::thread::spawn(move || {
-                    barrier.wait();
-                    for _ in 0..iters {
+                steps.push((
+                    Box::new(move || {
                         let _x = val.re_root(d.clone()).unwrap();
-                    }
-                    others.fetch_sub(1, Ordering::SeqCst);
-                }));
+                    }),
+                    iters,
+                    u64::MAX,
+                ));
             }
             "collect" => {
-                // collects for as long as the non-collecting operations run (at least 2000 times)
                 let t = ths[a].clone();
-                let others = others.clone();
-                hs.push(std::thread::spawn(move || {
-                    barrier.wait();
-                    let mut n = 0u64;
-                    while n < 2000 || others.load(Ordering::SeqCst) > 0 {
-                        t.collect();
-                        n += 1;
-                    }
-                }));
+                steps.push((Box::new(move || t.collect()), 2000, u64::MAX));
             }
             "push" => {
                 let (val, _) = ths[b]
@@ -512,30 +516,64 @@ fn child_locks(v: &Value) -> Value {
                 let (mut f, _): (gluon::vm::api::OwnedFunction<fn(OpaqueValue<RootedThread, Vec<i64>>) -> i64>, _) = ths[a]
                     .run_expr(&format!("f{}", j), "let f x : Array Int -> Int = 1 in f")
                     .unwrap();
-                let others = others.clone();
-                hs.push(std::thread::spawn(move || {
-                    barrier.wait();
-                    for _ in 0..iters {
+                steps.push((
+                    Box::new(move || {
                         let _ = f.call(val.clone()).unwrap();
-                    }
-                    others.fetch_sub(1, Ordering::SeqCst);
-                }));
+                    }),
+                    iters,
+                    u64::MAX,
+                ));
             }
             "newthread" => {
+                // every new thread stays in the parent's slab until collected and
+                // mark_child_roots is quadratic in the number of children: keep it small
                 let t = ths[a].clone();
-                let others = others.clone();
-                hs.push(std::thread::spawn(move || {
-                    barrier.wait();
-                    // every new thread stays in the parent's slab until collected and
-                    // mark_child_roots is quadratic in the number of children: keep it small
-                    for _ in 0..iters.min(400) {
+                steps.push((
+                    Box::new(move || {
                         let _c = t.new_thread().unwrap();
-                    }
-                    others.fetch_sub(1, Ordering::SeqCst);
-                }));
+                    }),
+                    400,
+                    400,
+                ));
             }
             _ => return json!({"setup_error": "unknown op"}),
         }
+    }
+    // every OS thread keeps repeating its operation until ALL have done their minimum (so the
+    // operations overlap for the whole run), or the time cap is reached
+    let n = steps.len();
+    let barrier = Arc::new(Barrier::new(n));
+    let pending = Arc::new(AtomicU64::new(n as u64));
+    let mut hs = vec![];
+    for (mut step, min, max) in steps {
+        let (barrier, pending) = (barrier.clone(), pending.clone());
+        hs.push(std::thread::spawn(move || {
+            barrier.wait();
+            let t0 = std::time::Instant::now();
+            let mut k = 0u64;
+            let mut done_min = false;
+            loop {
+                if k < max {
+                    step();
+                } else {
+                    std::thread::yield_now();
+                }
+                k += 1;
+                if !done_min && k >= min {
+                    done_min = true;
+                    pending.fetch_sub(1, Ordering::SeqCst);
+                }
+                if done_min && pending.load(Ordering::SeqCst) == 0 {
+                    break;
+                }
+                if k % 16 == 0 && t0.elapsed() > cap {
+                    if !done_min {
+                        pending.fetch_sub(1, Ordering::SeqCst);
+                    }
+                    break;
+                }
+            }
+        }));
     }
     let mut panicked = false;
     for h in hs {
@@ -844,7 +882,26 @@ fn one_par_run(case: &ParCase, cj: &Value, timeout: Duration) -> ParRun {
     ParRun { payload, class: ex.class(), failures, collections }
 }
 
-const MAX_RUNS: usize = 6;
+const MAX_RUNS: usize = 8;
+
+/// The fingerprint under which a failure of a parallel run is reported.  The real schedule decides
+/// HOW a racy scenario fails (a panic at one of several sites, a secondary panic in the threads
+/// waiting for the same salsa query, a poisoned mutex, an abort or SIGSEGV somewhere in the
+/// collector, a hang, a starved consumer), so for the two scenario classes with known races the
+/// fingerprint names the class; the manifestation is kept in `what` ("[detail] …") and in the
+/// `failure:<detail>` counters.  Failures of the sequential reference run and failures of cases
+/// that use neither channels nor std imports keep their specific fingerprint.
+fn class_fingerprint(case: &ParCase, detail: &str) -> String {
+    if detail == "module-body-count-sequential" {
+        detail.to_string()
+    } else if case.nchan > 0 {
+        "unsafe:parallel-run+channel".to_string()
+    } else if case.progs.iter().any(|p| p.std) {
+        "unsafe:parallel-run+std-imports".to_string()
+    } else {
+        detail.to_string()
+    }
+}
 
 /// One `par` case.  The schedule of the real run is not controllable, so a failing run (a
 /// property-oracle failure: always reported) is repeated — up to MAX_RUNS runs — and the payload of
@@ -874,9 +931,10 @@ fn run_par(out: &mut Out, case: &ParCase, rng: &mut Rng, timeout: Duration) {
         out.count("par_runs");
         out.count(&format!("outcome:{}", r.class));
         out.add("collections_while_running", r.collections);
-        for (fp, what) in &r.failures {
-            out.oracle_fail(fp, what, cj.clone());
-            out.count(&format!("failure:{}", fp));
+        for (detail, what) in &r.failures {
+            let fp = class_fingerprint(case, detail);
+            out.oracle_fail(&fp, &format!("[{}] {}", detail, what), cj.clone());
+            out.count(&format!("failure:{}", detail));
         }
         let clean = r.failures.is_empty();
         if !clean && attempt + 1 < MAX_RUNS {
@@ -933,36 +991,84 @@ impl LOp {
     }
 }
 
-/// Fingerprint of a hang: which two call shapes were running.
+/// Fingerprint of a hang of a lock scenario: the pair of call shapes that were running (which
+/// threads they ran on is in the replay data).  The historical name of D11 is kept.
 fn lock_fingerprint(ops: &[LOp]) -> String {
-    let all = |f: &dyn Fn(&LOp) -> bool| ops.iter().all(|o| f(o));
-    let any = |f: &dyn Fn(&LOp) -> bool| ops.iter().any(|o| f(o));
-    if all(&|o| matches!(o, LOp::Reroot(..))) {
+    let mut k: Vec<&str> = ops
+        .iter()
+        .map(|o| match o {
+            LOp::Reroot(..) => "re_root",
+            LOp::Collect(_) => "collect",
+            LOp::Push(..) => "push",
+            LOp::NewThread(_) => "new_thread",
+        })
+        .collect();
+    k.sort();
+    if k.iter().all(|x| *x == "re_root") {
         "deadlock:deep_clone_value-opposite-transfers".to_string()
-    } else if any(&|o| matches!(o, LOp::Collect(_))) && any(&|o| matches!(o, LOp::Push(..))) {
-        "deadlock:collect-vs-push-of-value-rooted-in-collecting-thread".to_string()
-    } else if any(&|o| matches!(o, LOp::Collect(_))) && any(&|o| matches!(o, LOp::Reroot(..))) {
-        "deadlock:collect-vs-re_root-against-collection-order".to_string()
     } else {
-        let mut k: Vec<&str> = ops
-            .iter()
-            .map(|o| match o {
-                LOp::Reroot(..) => "re_root",
-                LOp::Collect(_) => "collect",
-                LOp::Push(..) => "push",
-                LOp::NewThread(_) => "new_thread",
-            })
-            .collect();
-        k.sort();
         format!("deadlock:{}", k.join("-vs-"))
     }
 }
 
+/// (held context, then wanted context) pairs of one repetition of an operation, for the flat tree
+/// root 0 + children: what a reader of thread.rs / api/mod.rs sees.
+fn ctx_edges(op: &LOp, nth: usize) -> Vec<(usize, usize)> {
+    let collect_edges = |t: usize| -> Vec<(usize, usize)> {
+        // own context, then the children's in pop order (last child first)
+        if t == 0 {
+            let mut e: Vec<(usize, usize)> = (1..nth).map(|c| (0, c)).collect();
+            for hi in 1..nth {
+                for lo in 1..hi {
+                    e.push((hi, lo));
+                }
+            }
+            e
+        } else {
+            vec![]
+        }
+    };
+    match op {
+        LOp::Reroot(d, s) if d != s => vec![(*d, *s)],
+        LOp::Reroot(..) => vec![],
+        LOp::Collect(t) => collect_edges(*t),
+        LOp::Push(c, o) if c != o => vec![(*c, *o)],
+        LOp::Push(..) => vec![],
+        LOp::NewThread(p) => collect_edges(*p),
+    }
+}
+fn may_hang(ops: &[LOp]) -> bool {
+    for (i, a) in ops.iter().enumerate() {
+        for (j, b) in ops.iter().enumerate() {
+            if i != j {
+                for (h, w) in ctx_edges(a, 4) {
+                    if ctx_edges(b, 4).contains(&(w, h)) {
+                        return true;
+                    }
+                }
+            }
+        }
+    }
+    false
+}
+
 /// threads: 0 = root, 1..nth-1 children of the root.
 fn run_locks(out: &mut Out, nth: usize, ops: &[LOp], iters: u64, timeout: Duration) {
-    let cj = json!({"kind": "locks", "nthreads": nth, "ops": ops.iter().map(|o| o.json()).collect::<Vec<_>>(), "iters": iters});
+    let cj = json!({"kind": "locks", "nthreads": nth, "ops": ops.iter().map(|o| o.json()).collect::<Vec<_>>(), "iters": iters, "cap_ms": 3000});
     let req = format!("locks {} {}", nth, ops.iter().map(|o| o.sexp()).collect::<Vec<_>>().join(" "));
-    let ex = gv::child::run(&["--child"], &serde_json::to_vec(&cj).unwrap(), timeout);
+    // A deadlock needs the two threads to meet in a narrow window; a run in which they do not meet
+    // says nothing.  Scenarios that contain a pair of operations taking two contexts in opposite
+    // orders (read off the code, independent of the Lean model) are therefore run up to 6 times
+    // until a hang is seen; all others once.  What is reported is what was observed.
+    let attempts = if may_hang(ops) { 6 } else { 1 };
+    let mut ex = gv::child::run(&["--child"], &serde_json::to_vec(&cj).unwrap(), timeout);
+    for _ in 1..attempts {
+        if !matches!(ex, gv::child::Exit::Ok(_)) {
+            break;
+        }
+        out.count("locks-rerun-no-hang-yet");
+        ex = gv::child::run(&["--child"], &serde_json::to_vec(&cj).unwrap(), timeout);
+    }
     let payload = match &ex {
         gv::child::Exit::Ok(o) => {
             if o.contains("\"panicked\":true") {
@@ -1013,7 +1119,7 @@ fn main() {
     let mut out = Out::new(&args.out);
     let thorough = args.thorough();
     let par_timeout = Duration::from_secs(if thorough { 60 } else { 30 });
-    let lock_timeout = Duration::from_secs(if thorough { 15 } else { 6 });
+    let lock_timeout = Duration::from_secs(if thorough { 15 } else { 10 });
 
     if let Some(rp) = &args.replay {
         let v: Value = serde_json::from_str(&std::fs::read_to_string(rp).unwrap()).unwrap();
@@ -1059,6 +1165,7 @@ fn main() {
         vec![NewThread(0), Push(1, 0)],
         vec![Push(1, 0), Push(2, 0)],
         vec![Collect(0), Reroot(2, 1)],   // re-root in the order in which collect locks the children
+        vec![Collect(0), Reroot(1, 2)],   // … and against it (collect pops the LAST child first)
     ];
     for x in &scen {
         run_locks(&mut out, 4, x, iters, lock_timeout);
